@@ -179,6 +179,28 @@ def explore_c17(rng, tier, res, deep=False):
         expect.append(("__outcomes__", q, doc, None))
         sets.append((q, doc, {r for _ch, r in leaves}, False, len(expect) - 1))
         res.count("scripts", len(leaves))
+    # the flag is the environment's, read when a query is APPLIED: a query compiled while it was off and applied after it
+    # was switched on (instance attribute or class attribute) is nondeterministic in full — every permitted ordering of
+    # these small inputs is produced by some script, none that is not permitted
+    import jsonpath_rfc9535 as jp_
+
+    for doc, q in [({"x": {"a": 1}, "y": {"a": 2}}, "$..a"), ([[[1]], [2]], "$..[0]"), ({"p": 1, "q": 2}, "$.*"), ({"p": 1, "q": 2}, "$[?@]"), ({"x": [1], "y": [2]}, "$..*")]:
+        for how in ("instance", "class"):
+            cls = type("Late", (jp_.JSONPathEnvironment,), {})
+            late = cls()
+            c = late.compile(q)
+            if how == "instance":
+                late.nondeterministic = True
+            else:
+                cls.nondeterministic = True
+            a = real.ast_query(c)
+            leaves, complete = choice_tree(late, c, doc, 5000)
+            ed = wire.enc_json(doc)
+            lines.append(f"rfc.outcomes\t{eenv}\t{a}\t{ed}")
+            expect.append(("__outcomes__", q, doc, None))
+            sets.append((q + f"   (compiled before the flag was switched on: {how} attribute)", doc, {r for _ch, r in leaves}, complete, len(expect) - 1))
+            fixed_idx.add(len(sets) - 1)
+            res.count("scripts", len(leaves))
     # the known-finding witness and larger inputs with sampled scripts
     big_cases = [D24_WITNESS] + [(rng.choice(queries), doc_with_all_kinds(rng, 3)) for _ in range(20 if tier != "thorough" else 300)]
     for q, doc in big_cases:
